@@ -92,8 +92,9 @@ struct Sess {
 
     // brings the facet of the file that breach k lives in into the state given by cur
     void sync(const std::string &k) {
-        if (k == "nticks" || k == "unsorted") {
+        if (k == "nticks" || k == "unsorted" || k == "dupticks") {
             std::vector<double> t; for (nix::ndsize_t i = 0; i < n2 + (on("nticks") ? 1 : 0); i++) t.push_back(1.0 + 0.75 * i);
+            if (on("dupticks")) t[2] = t[1];          // ascending, not strictly
             if (on("unsorted")) { std::swap(t[0], t[2]); close(); h5WriteTicks(path, "/data/b/data_arrays/a1/dimensions/2", t); open(); }   // the API refuses it
             else arr("a1").getDimension(2).asRangeDimension().ticks(t);
         } else if (k == "unit_nonsi") { arr("a1").unit(on("unit_nonsi") ? "foo" : "mV");
